@@ -425,7 +425,16 @@ def _ebmeta(vals, minval=None, expand=False):
         line += " s:targetDistMinVal=%s" % minval
     return (line, conf + "}\n", files)
 
+def _walls_scaled(width, lo, up):
+    """harmonicWalls on one variable of the given width: the walls coincide when closer than 1e-6 widths"""
+    conf = cv("x", 1, "  width %s\n" % width) + "harmonicWalls {\n  name w\n  colvars x\n  lowerWalls %s\n  upperWalls %s\n  forceConstant 1.0\n}\n" % (lo, up)
+    return ("validate kind=walls n=1 w=%s s:forceConstant=1.0 l:lowerWalls=%s l:upperWalls=%s" % (width, lo, up), conf, {})
+
 VALIDATE2 = (
+    [_walls_scaled(w, lo, up) for w, lo, up in (("1e-8", "0", "2e-9"), ("75e-10", "-19e-10", "75e-10"), ("1", "0", "2e-9"), ("1", "0", "4e-6"),
+                                                 ("1", "0", "25e-8"), ("1e6", "0", "0.5"), ("1e6", "0", "4"), ("1e8", "0", "50"), ("1e8", "0", "400"),
+                                                 ("1e-8", "0", "25e-16"), ("1e-8", "0", "4e-14"), ("1e-8", "1", "1.000000002"), ("1e8", "-200", "200"),
+                                                 ("1e-8", "0", "-2e-9"), ("1e6", "3", "3"))] +
     [_opessn(s_, False, None) for s_ in ("0.5", "0", "-1", "0.001", "1000", "x", "1 2", None)] +
     [_opessn(None, False, None, adaptive=True), _opessn("0", False, None, adaptive=True)] +
     [_opessn("0.5", True, p) for p in (None, "3 0.5", "1 0.5", "1 0.1", "1.0001 0.1", "0.5 0.5", "3 0", "3 -1", "3 0.6", "3 1.2", "3", "3 0.5 1", "9 0.8", "9 0.9", "1.5 0.3", "1.5 0.35", "x 0.5")] +
